@@ -4,6 +4,7 @@ package main
 
 import (
 	"fmt"
+	"sort"
 	"strings"
 
 	"golang.org/x/tools/go/ssa"
@@ -79,4 +80,86 @@ func checkStableSorts(c *Ctx, r *Report, rule string, files []string, min int) {
 		}
 	}
 	r.Floor(rule, "sort calls in the verbs", n, min)
+}
+
+// c09Twins (R09.10): an Ascending/Descending pair of functions that is not
+// written as "the other with swapped arguments" (R09.3) is a mirror image:
+// the same sequence of ordering tests with < and >, <= and >= exchanged.
+func c09Twins(c *Ctx, r *Report) {
+	r.Rule("R09.10", "ascending and descending twins are mirror images: for every pair of functions of packages mlrval, bifs and transformers/utils whose names differ only in Ascending / Descending and that call the ordering predicates (LessThan, GreaterThan, LessThanOrEquals, GreaterThanOrEquals, Equals) directly, the sequence of predicates in source order, each normalised to 'first parameter op other', is the same in both with < and >, <= and >= exchanged — a binary search for the ascending insert point that tests > where its twin also tests > walks the wrong way")
+	mirror := map[string]string{"LessThan": "GreaterThan", "GreaterThan": "LessThan", "LessThanOrEquals": "GreaterThanOrEquals", "GreaterThanOrEquals": "LessThanOrEquals", "Equals": "Equals", "NotEquals": "NotEquals"}
+	seq := func(fn *ssa.Function) []string {
+		type ev struct {
+			pos int
+			op  string
+		}
+		var evs []ev
+		for _, b := range fn.Blocks {
+			for _, in := range b.Instrs {
+				call, ok := in.(*ssa.Call)
+				if !ok {
+					continue
+				}
+				cn := CalleeName(&call.Call)
+				i := strings.LastIndex(cn, ".")
+				if i < 0 || !strings.HasPrefix(cn, "pkg/mlrval.") {
+					continue
+				}
+				op := cn[i+1:]
+				if _, ok := mirror[op]; !ok || len(call.Call.Args) != 2 {
+					continue
+				}
+				// normalise: which argument is the function's own value parameter?
+				if paramIndex(fn, call.Call.Args[0]) < 0 && paramIndex(fn, call.Call.Args[1]) >= 0 {
+					op = mirror[op]
+				}
+				evs = append(evs, ev{int(call.Pos()), op})
+			}
+		}
+		sort.Slice(evs, func(i, j int) bool { return evs[i].pos < evs[j].pos })
+		var out []string
+		for _, e := range evs {
+			out = append(out, e.op)
+		}
+		return out
+	}
+	n := 0
+	byName := map[string]*ssa.Function{}
+	for _, fn := range c.ModuleFunctions() {
+		if fn.Blocks == nil || fn.Pkg == nil || fn.Parent() != nil {
+			continue
+		}
+		pp := fn.Pkg.Pkg.Path()
+		if strings.HasSuffix(pp, "/pkg/mlrval") || strings.HasSuffix(pp, "/pkg/bifs") || strings.HasSuffix(pp, "/pkg/transformers/utils") {
+			byName[SSAName(fn)] = fn
+		}
+	}
+	var names []string
+	for k := range byName {
+		names = append(names, k)
+	}
+	sort.Strings(names)
+	for _, an := range names {
+		if !strings.Contains(an, "Ascending") {
+			continue
+		}
+		dn := strings.Replace(an, "Ascending", "Descending", 1)
+		d, ok := byName[dn]
+		if !ok {
+			continue
+		}
+		a := byName[an]
+		sa, sd := seq(a), seq(d)
+		if len(sa) == 0 && len(sd) == 0 {
+			continue // written through other functions (R09.3 covers the comparators)
+		}
+		n++
+		var want []string
+		for _, op := range sd {
+			want = append(want, mirror[op])
+		}
+		r.Check(strings.Join(sa, " ") == strings.Join(want, " "), "R09.10", an+" / "+strings.TrimPrefix(dn, "pkg/mlrval."), c.Rel(a.Pos()), "mirror images: "+strings.Join(sa, " "),
+			fmt.Sprintf("%s tests [%s] where its twin tests [%s]: they are not mirror images (expected [%s]) — one of the two orders its elements the wrong way at the place where they differ", an, strings.Join(sa, " "), strings.Join(sd, " "), strings.Join(want, " ")))
+	}
+	r.Floor("R09.10", "ascending/descending twins with direct ordering tests", n, 1)
 }
